@@ -38,7 +38,7 @@ import (
 //   R <result line>      canonical result, ends the op
 // ---------------------------------------------------------------------------------------------
 
-const stageTimeout = 15 * time.Second
+const stageTimeout = 10 * time.Second
 
 type sink struct{ w *bufio.Writer }
 
@@ -61,7 +61,7 @@ func (s *sink) fail(sig, d string) {
 }
 
 func workerMain() {
-	debug.SetMaxStack(192 << 20) // runaway recursion dies in well under a second
+	debug.SetMaxStack(32 << 20) // runaway recursion dies in well under a second
 	in := bufio.NewReaderSize(os.Stdin, 1<<20)
 	out := &sink{w: bufio.NewWriterSize(os.Stdout, 1<<16)}
 	for {
@@ -282,6 +282,9 @@ func compileErrClass(msg string) string {
 // describe prints the input distribution of a (valid) package into the counters.
 func describe(out *sink, s *Spec) {
 	out.count(fmt.Sprintf("pkg.services=%d", len(s.Services)))
+	if s.Extra > 0 {
+		out.count("pkg.two-source-files")
+	}
 	if len(s.Topics) > 0 {
 		out.count("pkg.with-topics")
 	}
@@ -659,7 +662,7 @@ func callWorker(h *vh.H, op string, record bool) opResult {
 			}
 		}
 	}()
-	deadline := time.After(8 * stageTimeout)
+	deadline := time.After(4 * stageTimeout)
 loop:
 	for res.died == "" {
 		select {
